@@ -199,3 +199,48 @@ package flv
 //@   assert[call:WriteFlvTag] tag != nil && tag.TagType == TagTypeAudio && tag.Timestamp == 0 && int(tag.DataSize) == len(tag.Data) && tag.StreamID == 0
 //@   assert[call:WriteFlvTag] len(tag.Data) == 2 + len(ap.meta.Sps) && tag.Data[0]>>4 == SoundFormatAAC && tag.Data[1] == AACPacketTypeSequenceHeader && forall(i, 0, len(ap.meta.Sps), tag.Data[2+i] == ap.meta.Sps[i])
 //@   ensures len(ghostSeq(ap.tagWriter, "tags")) == old(len(ghostSeq(ap.tagWriter, "tags"))) + 1
+
+// ---- C08: order of tags: metadata, video sequence header, audio sequence header, then media -----------------------------
+//@ import "runtime/debug"
+//@ import "github.com/cnotch/queue"
+//@ import "github.com/cnotch/xlog"
+//@ extern func (q *queue.SyncQueue) Pop() (x interface{})
+//@   requires q != nil
+//@   modifies ghostAll("misc")
+//@ extern func (q *queue.SyncQueue) Reset() ()
+//@   modifies ghostAll("misc")
+//@ extern func (l *xlog.Logger) Warn(msg string, fields ...xlog.Field) ()
+//@   modifies
+//@ extern func (l *xlog.Logger) Errorf(format string, args ...interface{}) ()
+//@   modifies
+//@ extern func debug.Stack() (b []byte)
+//@   modifies
+//@ extern func (e error) Error() (s string)
+//@   modifies
+// ghost counters: tags of each kind produced so far by this muxer / its packetisers
+//@ func (muxer *Muxer) muxMetadataTag() (err error)
+//@   trusted
+//@   requires muxer != nil
+//@   modifies ghostInt(muxer, "metaTags"), ghostAll("misc")
+//@   ensures ghostInt(muxer, "metaTags") == old(ghostInt(muxer, "metaTags")) + 1
+//@ extern func (p Packetizer) PacketizeSequenceHeader() (err error)
+//@   panics
+//@   modifies ghostInt(p, "seqHeaders"), ghostAll("misc")
+//@   ensures ghostInt(p, "seqHeaders") == old(ghostInt(p, "seqHeaders")) + 1
+//@ extern func (p Packetizer) Packetize(frame *codec.Frame) (err error)
+//@   panics
+//@   modifies ghostInt(p, "mediaTags"), ghostAll("misc")
+// the muxer goroutine: the first frame it sees makes it emit the metadata tag, then the video sequence header, then the
+// audio sequence header - in this order, once - and only then, and for every later frame, media tags
+//@ func (muxer *Muxer) process() ()
+//@   recovers
+//@   requires muxer != nil && muxer.recvQueue != nil && muxer.vp != nil && muxer.ap != nil && muxer.logger != nil && distinctObj(muxer.vp, muxer.ap)
+//@   requires ghostInt(muxer, "metaTags") == 0 && ghostInt(muxer.vp, "seqHeaders") == 0 && ghostInt(muxer.ap, "seqHeaders") == 0
+//@   modifies all()
+//@   local packSequenceHeader bool
+//@   loop 0: modifies ghostInt(muxer, "metaTags"), ghostInt(muxer.vp, "seqHeaders"), ghostInt(muxer.ap, "seqHeaders"), ghostInt(muxer.vp, "mediaTags"), ghostInt(muxer.ap, "mediaTags"), ghostAll("misc")
+//@   loop 0: invariant muxer != nil && muxer.recvQueue != nil && muxer.vp != nil && muxer.ap != nil && muxer.logger != nil && distinctObj(muxer.vp, muxer.ap)
+//@   loop 0: invariant !packSequenceHeader ==> ghostInt(muxer, "metaTags") == 0 && ghostInt(muxer.vp, "seqHeaders") == 0 && ghostInt(muxer.ap, "seqHeaders") == 0
+//@   loop 0: invariant packSequenceHeader ==> ghostInt(muxer, "metaTags") == 1 && ghostInt(muxer.vp, "seqHeaders") == 1 && ghostInt(muxer.ap, "seqHeaders") == 1
+//@   assert[call:PacketizeSequenceHeader] ghostInt(muxer, "metaTags") == 1 && ghostInt(muxer.ap, "seqHeaders") == 0
+//@   assert[call:Packetize] ghostInt(muxer, "metaTags") == 1 && ghostInt(muxer.vp, "seqHeaders") == 1 && ghostInt(muxer.ap, "seqHeaders") == 1
